@@ -296,3 +296,24 @@ Proof.
   split; [rewrite E1; reflexivity|]. split; [rewrite E1; exact E2|]. exact expired_step_hypotheses.
 Qed.
 Print Assumptions C15_handler_expiry_example.
+
+(* Configuration plumbing (Model/Config.v, transcribing ConfigBuilder, Config, Discv5::new / Discv5::start,
+   tied to the code by the `glue` correspondence run on real loopback sockets): the parameters the theorems
+   above take as given are the ones the application configured - the value set last through the builder,
+   or the default - at every component they are handed to. *)
+Require Discv5V.Generated.Params Discv5V.Model.Config Discv5V.Proofs.Config.
+Theorem C15_configured_session_timeout_reaches_the_handler : forall ops v, Discv5V.Model.Config.start_node ops = Some v ->
+  Discv5V.Model.Config.VN (Discv5V.Model.Config.c_session_timeout (Discv5V.Model.Config.nv_built v)) = Discv5V.Model.Config.configured ops Discv5V.Model.Config.FSessionTimeout /\
+  Discv5V.Model.Config.VN (Discv5V.Model.Config.c_session_timeout (Discv5V.Model.Config.nv_service v)) = Discv5V.Model.Config.configured ops Discv5V.Model.Config.FSessionTimeout /\
+  Discv5V.Model.Config.VN (Discv5V.Model.Config.c_session_timeout (Discv5V.Model.Config.nv_handler v)) = Discv5V.Model.Config.configured ops Discv5V.Model.Config.FSessionTimeout.
+Proof. exact Discv5V.Proofs.Config.effective_session_timeout. Qed.
+Print Assumptions C15_configured_session_timeout_reaches_the_handler.
+Theorem C15_configured_session_capacity_reaches_the_handler : forall ops v, Discv5V.Model.Config.start_node ops = Some v ->
+  Discv5V.Model.Config.VN (Discv5V.Model.Config.c_session_cache_capacity (Discv5V.Model.Config.nv_built v)) = Discv5V.Model.Config.configured ops Discv5V.Model.Config.FSessionCacheCapacity /\
+  Discv5V.Model.Config.VN (Discv5V.Model.Config.c_session_cache_capacity (Discv5V.Model.Config.nv_service v)) = Discv5V.Model.Config.configured ops Discv5V.Model.Config.FSessionCacheCapacity /\
+  Discv5V.Model.Config.VN (Discv5V.Model.Config.c_session_cache_capacity (Discv5V.Model.Config.nv_handler v)) = Discv5V.Model.Config.configured ops Discv5V.Model.Config.FSessionCacheCapacity.
+Proof. exact Discv5V.Proofs.Config.effective_session_cache_capacity. Qed.
+Print Assumptions C15_configured_session_capacity_reaches_the_handler.
+Theorem C15_configuration_example : exists v, Discv5V.Model.Config.start_node Discv5V.Proofs.Config.example_ops = Some v.
+Proof. destruct Discv5V.Proofs.Config.example_starts as [v [H _]]. exists v. exact H. Qed.
+Print Assumptions C15_configuration_example.
